@@ -148,6 +148,19 @@ func genC03(c *runCfg) error {
 		g.w("\tn := vrt.Choose(\"n\", %d, %d)\n\tin := vrt.Bytes(\"in\", n)\n", h+mandMin(m), h+mandMin(m)+T)
 		g.w("\tvrt.Assume(in[0] == %s && in[%d] == %d)\n", epd, h-1, *m.MsgType)
 		g.w("\tzzFixpoint(in, \"%s\")\n}\n\n", m.Message)
+		// (a') an optional element occurring twice (the second with its own content and length): whatever the decoder
+		// keeps of the first occurrence must not make the second decode differ from the first
+		if len(optRows(m)) > 0 {
+			g.w("func VH_C03_%s_dup() {\n", m.Message)
+			g.w("\tj := vrt.Choose(\"row\", 0, %d)\n\tc1 := vrt.Choose(\"cls1\", 0, 3)\n\tc2 := vrt.Choose(\"cls2\", 0, 3)\n", len(optRows(m))-1)
+			g.w("\tfirst := zzSym%s(2+j, c1)\n", m.Message)
+			g.w("\tvrt.Assume(first[0].V[0] == %s && first[%d].V[0] == %d)\n", epd, h-1, *m.MsgType)
+			g.w("\tin := ref.Encode(zzTbl%s, first)\n", m.Message)
+			g.w("\tsecond := zzSymB%s(2+j, c2)\n\tonly := make([]ref.Elem, len(second))\n\tfor i := range only {\n\t\tif zzTbl%s[i].Opt {\n\t\t\tonly[i] = second[i]\n\t\t}\n\t}\n", m.Message, m.Message)
+			g.w("\toptOnly := make([]ref.Row, len(zzTbl%s))\n\tcopy(optOnly, zzTbl%s)\n\tfor i := range optOnly {\n\t\tif !optOnly[i].Opt {\n\t\t\toptOnly[i].F = ref.FV\n\t\t\toptOnly[i].N = 0\n\t\t\tonly[i] = ref.Elem{Present: true}\n\t\t}\n\t}\n", m.Message, m.Message)
+			g.w("\tin = append(in, ref.Encode(optOnly, only)...)\n")
+			g.w("\tzzFixpoint(in, \"%s (duplicate element)\")\n}\n\n", m.Message)
+		}
 		// (b) decoder post-condition: whatever is accepted is well-formed (declared length = content length, within
 		// bounds), i.e. lies in the domain of the round-trip property C02; symbolic-length input, one optional element
 		g.w("func VH_C03_%s_wf() {\n", m.Message)
